@@ -17,7 +17,7 @@ EXPLANATION = (
     "row, and the in-place time corrections touch only those fresh dicts' elapsed-time entry; S5 levels after a resume start "
     "strictly after the paused level (shared with C02-S7); S6 waiting is charged once - only the sleep callback and the "
     "backend's own entry points advance the clock, each entry point charges outside time at most once and marks its exit "
-    "on every normal path. NOT decided: time stamp == start + elapsed + delays (arithmetic), the monotonicity repair "
+    "on every normal path. S6 also: every result of a job is pushed as one result event for that trial, stamped start + elapsed + result delay (a plain sum of these three), the completion event carries the job's status, a processed result is stamped with its event's time; S5 also: the elapsed-time offset of the paused level is subtracted from every kept result, after the scan. NOT decided: time stamp == start + elapsed + delays (arithmetic), the monotonicity repair "
     "constants.")
 
 FLOOR = {"S1": 4, "S2": 4, "S3": 3, "S4": 3, "S5": 3, "S6": 6}
